@@ -204,7 +204,7 @@ Section Top.
   Proof.
     induction ds as [|d ds IH]; intros r Hd; cbn; [auto|].
     assert (Hd' : debris (rs (emit r (ERmDebris d))) = ds).
-    { cbn. rewrite Hd. cbn. assert (E : dfile_eqb d d = true) by (destruct d; cbn; rewrite ?N.eqb_refl; reflexivity). rewrite E. reflexivity. }
+    { cbn. rewrite Hd. cbn. assert (E : dfile_eqb d d = true) by (destruct d as [|h|h i [| |]|h c|h]; cbn; rewrite ?N.eqb_refl; reflexivity). rewrite E. reflexivity. }
     destruct (IH _ Hd') as [H1 [H2 H3]]. cbn in H2, H3. auto.
   Qed.
 
